@@ -161,6 +161,8 @@ class Explorer:
         self.feas_cache: dict[Any, Any] = {}
         self.feas_queries = 0
         self.feas_unknown = 0
+        self.stubs: dict[tuple[str, str], Callable] = {}       # (object tag, method) -> contract
+        self.stub_attrs: dict[tuple[str, str], Callable] = {}  # (object tag, attribute) -> value
 
     def run(self, harness: Callable[["Interp"], None]) -> None:
         stack: list[list[int]] = [[]]
@@ -417,7 +419,15 @@ class Interp:
         if isinstance(v, VStr):
             if v.s is not None:
                 return len(v.s) > 0
-            raise Unsupported("truthiness of opaque str")
+            if v.t is not None:
+                return z3.Length(v.t) > 0
+            # an opaque string: emptiness is an unconstrained (but fixed) fact about it
+            if not hasattr(self, "_str_truth"):
+                self._str_truth = {}
+            k = id(v)
+            if k not in self._str_truth:
+                self._str_truth[k] = (v, z3.Bool(self.fresh_name("nonempty")))
+            return self._str_truth[k][1]
         if isinstance(v, VFloat):
             return v.t != 0
         if isinstance(v, VObj):
